@@ -36,6 +36,7 @@ func specC04() *propertySpec {
 			{"C04-R4.9", "recording-only-grows: rec.data and rec.groups are shortened or replaced only by prune and its helpers; every other store appends, so drawn() = len(rec.data) is the number of words drawn in recording runs as it is (by counter) in the others", ruleC04R49},
 			{"C04-R4.10", "no-failure-discarded: wherever a rejected attempt is marked as discarded (repeat.reject, endGroup with a discard flag) after user code may have run in it (generator values, function values), the failure flag is consulted first on every path: the verdict of a test case does not rest on bits that prune() removes", ruleNoFailureDiscarded},
 			{"C04-R4.11", "repeat-state-owned: the fields of repeat are written only by newRepeat, more and reject — no generator adjusts the count, the limits or the continue probability after a rejection; the only rejection-derived state that steers a draw is the one R4.4 reviews (shared from C03-R9)", ruleRepeatOwnState},
+			{"C04-R4.13", "state-machine-carries-no-state: the fields of stateMachine are stored only by the function that allocates it, before the step loop — nothing is carried from a step (possibly rejected and pruned) into a later one", ruleStateMachineNoState},
 			{"C04-R4.12", "same-verdict-in-both-recording-modes: endGroup's 'group used data' assertion is made on every path that keeps the group, recording or not, and exempts discarded groups in both (shared with C13-R6 / C01-R10): the search runs on non-recording streams, the reproduction on recording ones", ruleEndGroupAssertExempt},
 			{"C04-R7", "no-once-around-user-code: no sync.Once.Do function calls a function value (a panic there is remembered as 'done' and the same bits give another verdict afterwards)", ruleNoOnceAroundUserCode},
 			{"C04-R5", "prune-removes-exactly-discards: prune removes group i only under groups[i].discard; removeGroup deletes data[g.begin:g.end] and rebases by g.end-g.begin", ruleC04R5},
@@ -1435,15 +1436,18 @@ func ruleC04R48(r *Run) {
 	if fn := r.MustFn("(*recordedBits).drawn"); fn != nil {
 		ok := true
 		for _, ret := range returnsOf(fn) {
-			ex := p.expr(p.res(ret, 0))
-			facts := p.facts(ret)
-			switch {
-			case ex == "builtin:len($rec.data)":
-				ok = ok && holds(facts, "$rec.persist", "==", "true")
-			case ex == "$rec.dataLen":
-				ok = ok && holds(facts, "$rec.persist", "==", "false")
-			default:
-				ok = false
+			// the result may be a variable assigned per mode (a phi): every alternative with the facts of its edge
+			for _, lf := range p.alternatives(p.res(ret, 0), 0) {
+				ex := p.expr(lf.Val)
+				facts := append(append([]rel{}, lf.Facts...), p.facts(ret)...)
+				switch {
+				case ex == "builtin:len($rec.data)":
+					ok = ok && holds(facts, "$rec.persist", "==", "true")
+				case ex == "$rec.dataLen":
+					ok = ok && holds(facts, "$rec.persist", "==", "false")
+				default:
+					ok = false
+				}
 			}
 		}
 		r.Check("(*recordedBits).drawn", fn.Pos(), ok, "drawn() is the number of words drawn (len(data) when recording, dataLen otherwise)", "drawn() no longer reports the number of words drawn for both recording modes")
@@ -1557,4 +1561,30 @@ func ruleC04R49(r *Run) {
 			"rec."+fa.Field+" is replaced by "+p.expr(st.Val)+" in "+name+", outside prune: a recording shortened during the run moves drawn() = len(rec.data) backwards in recording runs only (runAction then decides 'skipped' differently when recording and when replaying), and the recorded words are not the ones a replay reads")
 	}
 	r.Floor("stores to recordedBits.data/groups", n, 3)
+}
+
+// ruleStateMachineNoState (C04-R4.13): the stateMachine value of a Repeat call is configuration — invariant, key
+// generator, action table —, initialised once by the function that allocates it, before the step loop. A field that is
+// stored later (a retry counter kept across steps, a memo of the last action) carries information out of steps that are
+// afterwards rejected: their groups are discarded and pruned, the stored value is not, so what happens later (which
+// action runs, when "can't find a valid action" is raised) is no longer a function of the kept bits.
+func ruleStateMachineNoState(r *Run) {
+	p := r.P
+	n := 0
+	for _, fa := range p.fieldAccesses("stateMachine") {
+		if fa.Kind == "read" {
+			continue
+		}
+		n++
+		name := p.hostName(fa.Fn)
+		ok := false
+		if fa.Kind == "write" && fa.FA != nil {
+			if al, isA := p.resolve(addrRoot(fa.FA)).(*ssa.Alloc); isA && al.Parent() == fa.Fn && innermostLoop(fa.Instr) == nil {
+				ok = true
+			}
+		}
+		r.Check(name+"#stateMachine."+fa.Field+"."+fa.Kind, fa.Instr.Pos(), ok, "initialised once by the function that allocates the state machine, before the step loop",
+			"stateMachine."+fa.Field+" is stored ("+fa.Kind+") in "+name+" after construction: state kept across the steps of Repeat survives the rejection of a step, whose bits are discarded and pruned — the pruned recording then replays to other actions or another verdict (e.g. a retry counter that is not reset per step makes 'can't find a valid action' depend on skips inside rejected steps)")
+	}
+	r.Floor("initialising stores to stateMachine fields", n, 3)
 }
